@@ -364,6 +364,10 @@ class Report:
         }
         # checks that go beyond the listed properties (X..) keep their evidence apart from the per-property files
         evdir = EVIDENCE if not self.prop.startswith("X") else os.path.join(VERIF, "extras")
+        if os.environ.get("VERIF_SUBJECT_SRC"):
+            # development runs against a scratch copy of the sources (seeded changes, refactorings) must not overwrite the
+            # evidence of the checks of /repo itself
+            evdir = os.path.join(scratch_root(), "evidence_of_dev_runs")
         os.makedirs(evdir, exist_ok=True)
         with open(os.path.join(evdir, "%s.json" % self.prop), "w") as f:
             json.dump(ev, f, indent=1, sort_keys=True, default=str)
